@@ -1,6 +1,7 @@
 import RdsProofs.TransGroups
 import RdsProofs.TransTables
 import RdsProps.C01
+import RdsProps.C03
 import RdsProps.C02
 import RdsProps.C04
 import RdsProps.C06
@@ -48,6 +49,16 @@ about are those of the C state `crun u ops`, under the configuration `cfgC u` th
 -- THEOREM: RDS.C.C04_source
 -- THEOREM: RDS.C.C09_source
 -- THEOREM: RDS.C.C16_source
+-- THEOREM: RDS.C.C02_source
+-- THEOREM: RDS.C.C06_source
+-- THEOREM: RDS.C.C07_source
+-- THEOREM: RDS.C.C08_source
+-- THEOREM: RDS.C.C10_source
+-- THEOREM: RDS.C.C11_source
+-- THEOREM: RDS.C.C12_source
+-- THEOREM: RDS.C.C13_source
+-- THEOREM: RDS.C.C17_source
+-- THEOREM: RDS.C.C03_source
 namespace RDS.C
 open RDS
 
@@ -83,5 +94,67 @@ theorem C16_source (u : Bool) (ops : List Op) (hops : ∀ op ∈ ops, Op.Transla
     chkC16 (cfgC u) (recOf (cfgC u) (abs (crun u ops)) op) = true := by
   rw [(crun_refines u ops hops).1]
   exact C16 (sourceTabs u) (sourceEccOk u) ops op
+
+theorem C02_source (u : Bool) (ops : List Op) (hops : ∀ op ∈ ops, Op.Translatable op) (op : Op) :
+    chkC02 (cfgC u) (monAfter (cfgC u) ops) (recOf (cfgC u) (abs (crun u ops)) op) = true := by
+  rw [(crun_refines u ops hops).1]
+  exact C02 (sourceTabs u) (sourceEccOk u) ops op
+
+theorem C06_source (u : Bool) (ops : List Op) (hops : ∀ op ∈ ops, Op.Translatable op) (op : Op) :
+    chkC06 (cfgC u) (monAfter (cfgC u) ops) (recOf (cfgC u) (abs (crun u ops)) op) = true := by
+  rw [(crun_refines u ops hops).1]
+  exact C06 (sourceTabs u) (sourceEccOk u) ops op
+
+theorem C07_source (u : Bool) (ops : List Op) (hops : ∀ op ∈ ops, Op.Translatable op) (op : Op) :
+    chkC07 (monAfter (cfgC u) ops) (recOf (cfgC u) (abs (crun u ops)) op) = true := by
+  rw [(crun_refines u ops hops).1]
+  exact C07 (sourceTabs u) (sourceEccOk u) ops op
+
+theorem C08_source (u : Bool) (ops : List Op) (hops : ∀ op ∈ ops, Op.Translatable op) (op : Op) :
+    chkC08 (monAfter (cfgC u) ops) (recOf (cfgC u) (abs (crun u ops)) op) = true := by
+  rw [(crun_refines u ops hops).1]
+  exact C08 (sourceTabs u) (sourceEccOk u) ops op
+
+theorem C10_source (u : Bool) (ops : List Op) (hops : ∀ op ∈ ops, Op.Translatable op) (op : Op) :
+    chkC10 (monAfter (cfgC u) (ops ++ [op])) (recOf (cfgC u) (abs (crun u ops)) op) = true := by
+  rw [(crun_refines u ops hops).1]
+  exact C10 (sourceTabs u) (sourceEccOk u) ops op
+
+theorem C11_source (u : Bool) (ops : List Op) (hops : ∀ op ∈ ops, Op.Translatable op) (op : Op) :
+    chkC11 (sourceTabs u) (monAfter (cfgC u) (ops ++ [op])) (recOf (cfgC u) (abs (crun u ops)) op) = true := by
+  rw [(crun_refines u ops hops).1]
+  exact C11 (sourceTabs u) (sourceEccOk u) ops op
+
+theorem C12_source (u : Bool) (ops : List Op) (hops : ∀ op ∈ ops, Op.Translatable op) (op : Op) :
+    chkC12 (monAfter (cfgC u) ops) (recOf (cfgC u) (abs (crun u ops)) op) = true := by
+  rw [(crun_refines u ops hops).1]
+  exact C12 (sourceTabs u) (sourceEccOk u) ops op
+
+theorem C13_source (u : Bool) (ops : List Op) (hops : ∀ op ∈ ops, Op.Translatable op) (op : Op) :
+    chkC13 (recOf (cfgC u) (abs (crun u ops)) op) = true := by
+  rw [(crun_refines u ops hops).1]
+  exact C13 (sourceTabs u) (sourceEccOk u) ops op
+
+theorem C17_source (u : Bool) (ops : List Op) (hops : ∀ op ∈ ops, Op.Translatable op) (op : Op) :
+    chkC17 (monAfter (cfgC u) (ops ++ [op])) (recOf (cfgC u) (abs (crun u ops)) op) = true := by
+  rw [(crun_refines u ops hops).1]
+  exact C17 (sourceTabs u) (sourceEccOk u) ops op
+
+/-- C03 for the translated source: in any reachable C state, two groups that differ only in unused blocks
+(`sameUsed` with the settings the getters show) lead to C states denoting the same model state, and to the same
+callbacks -/
+theorem C03_source (u : Bool) (r : C_librdsparser) (hI : CInv r) (g g' : Group) (hg : g.Bounded) (hg' : g'.Bounded)
+    (hs : sameUsed (abs r).set g g' = true) (log : CLog) :
+    abs (c_rdsparser_parser_process u r (dataOf g) (errorsOf g) log).1 =
+      abs (c_rdsparser_parser_process u r (dataOf g') (errorsOf g') log).1 ∧
+    absLog (c_rdsparser_parser_process u r (dataOf g) (errorsOf g) log).2 =
+      absLog (c_rdsparser_parser_process u r (dataOf g') (errorsOf g') log).2 := by
+  have h1 := process_refines u r hI g hg log
+  have h2 := process_refines u r hI g' hg' log
+  have h3 := C03_process (cfgC u) (abs r) g g' hs
+  simp only [] at h1 h2
+  constructor
+  · rw [h1.1, h2.1, h3]
+  · rw [h1.2.1, h2.2.1, h3]
 
 end RDS.C
